@@ -55,8 +55,11 @@ type Conn struct {
 	// for this write has passed" - the write fails with a timeout error, and
 	// so does every later write whose deadline is not later than that one.
 	ExpiryFaults bool
-	wdeadline    time.Time
-	wexpired     time.Time
+	// TempReadFaults adds a third answer to a faulty Read: a temporary
+	// (non-timeout) error with no bytes, after which reading goes on.
+	TempReadFaults bool
+	wdeadline      time.Time
+	wexpired       time.Time
 	// With ExpiryFaults, a frame that starts under a write deadline which was
 	// not renewed since the previous frame started may find it expired (any
 	// amount of time can have passed in between): a fourth answer.
@@ -67,6 +70,13 @@ type Conn struct {
 	frames9p    int    // frames started so far
 	partial     []byte // bytes of the frame in progress
 }
+
+// tempErr is a transient network error that is not a timeout.
+type tempErr struct{}
+
+func (tempErr) Error() string   { return "vconn: temporary failure" }
+func (tempErr) Timeout() bool   { return false }
+func (tempErr) Temporary() bool { return true }
 
 // timeoutErr is what a net.Conn returns when a deadline has passed.
 type timeoutErr struct{}
@@ -100,10 +110,19 @@ func (c *Conn) Read(p []byte) (int, error) {
 	faulty := c.FaultyReads
 	d.mu.Unlock()
 	if faulty {
-		if vsched.Choose("conn.Read?"+c.Name, 2, true) == 1 {
+		n := 2
+		if c.TempReadFaults {
+			n = 3
+		}
+		switch vsched.Choose("conn.Read?"+c.Name, n, true) {
+		case 1:
 			d.mu.Lock()
 			d.readErr = ErrInjectedRead
 			d.mu.Unlock()
+		case 2:
+			// a transient condition: this Read reports a temporary error
+			// (not a timeout) and no bytes; the connection is fine
+			return 0, tempErr{}
 		}
 	}
 	vsched.WaitFor("conn.Read:"+c.Name, d.id(), c.condReadable)
